@@ -74,6 +74,19 @@ def isCompact : Op → Bool
     index entry was deleted. -/
 def trigRemCompact (h : List Op) : Bool := h.any isRemTx && h.any isCompact
 
+def setsOf (h : List Op) : List (Nat × Key × OV) :=
+  h.flatMap (fun | .commit tx => tx.filterMap (fun | .set n k v => some (n, k, v) | _ => none) | _ => [])
+
+/-- values whose ordered encoding is longer than this are outside the model (see `trigOversizedKey`) -/
+def maxIndexedValueLen : Nat := 1024
+
+/-- C15-oversized-key: a property value whose index key cannot fit a B-tree cell.  With an index on
+    the property `commit` then panics inside `BTree::insert` (`rebuild_leaf` unwraps "no space")
+    holding the catalog and pager locks, which poisons the engine; without the index the commit
+    succeeds.  The model has no such failure path, so these histories are excluded explicitly. -/
+def trigOversizedKey (h : List Op) : Bool :=
+  (setsOf h).any (fun s => decide ((enc s.2.2).length > maxIndexedValueLen))
+
 /-! ### triggers of the REPAIRED causes (only meaningful while the corresponding `Cfg` flag is off) -/
 
 /-- C15-late-index: an index is created when a node with its label already has the property -/
@@ -91,9 +104,6 @@ def trigLateIndex (cfg : Cfg) (h : List Op) : Bool := lateIndexFrom cfg State.in
 def trigDelete (h : List Op) : Bool :=
   h.any (fun | .commit tx => tx.any (fun | .del _ => true | _ => false) | _ => false)
 
-def setsOf (h : List Op) : List (Nat × Key × OV) :=
-  h.flatMap (fun | .commit tx => tx.filterMap (fun | .set n k v => some (n, k, v) | _ => none) | _ => [])
-
 /-- C15-dup-delete-miss: two different nodes are given index-key-equal values for one property -/
 def trigDupValues (h : List Op) : Bool :=
   let ss := setsOf h
@@ -109,6 +119,7 @@ def trigNumeric (q : Query) : Bool :=
 def triggerIds (cfg : Cfg) (h : List Op) (q : Query) : List String :=
   (if trigNonFirstLabel h then ["C15-nonfirst-label"] else []) ++
   (if trigRemCompact h then ["C15-removed-prop-resurrects"] else []) ++
+  (if trigOversizedKey h then ["C15-oversized-key"] else []) ++
   (if !cfg.backfill && trigLateIndex cfg h then ["C15-late-index"] else []) ++
   (if !cfg.seekLive && trigDelete h then ["C15-deleted-node"] else []) ++
   (if !cfg.compositeKey && trigDupValues h then ["C15-dup-delete-miss"] else []) ++
